@@ -17,7 +17,7 @@
 (***************************************************************************)
 EXTENDS PopLayout
 
-CONSTANTS Menu, MaxOps
+CONSTANTS Menu, MaxOps, BadOps
 VARIABLES dimCustom, parCustom, nrc, rhist
 rcvars == <<subs, nIds, fixed, phase, tb, dimCustom, parCustom, nrc, rhist>>
 
@@ -51,9 +51,16 @@ RC_ParNames(b) == /\ Built /\ nrc < MaxOps /\ b # parCustom
                   /\ parCustom' = b /\ rhist' = Append(rhist, <<"parnames", IF b THEN 1 ELSE 0>>) /\ nrc' = nrc + 1
                   /\ UNCHANGED <<subs, nIds, fixed, phase, tb, dimCustom>>
 
+\* A call that is REJECTED (set_dim_names / set_parameter_names with too few names, set_n_ids(0)) has no effect at all:
+\* nothing of the state changes, only the history records it (<<"bad", kind>>).  At most one per behaviour (BadOps).
+RC_Bad(k) == /\ BadOps /\ Built /\ nrc < MaxOps /\ \A i \in DOMAIN rhist : rhist[i][1] # "bad"
+             /\ rhist' = Append(rhist, <<"bad", k>>) /\ nrc' = nrc + 1
+             /\ UNCHANGED <<subs, nIds, fixed, phase, tb, dimCustom, parCustom>>
+
 RC_Next == \/ (Build \/ NameIt) /\ UNCHANGED <<dimCustom, parCustom, nrc, rhist>>
            \/ \E n \in 1..MaxIds : RC_SetNIds(n)
            \/ \E j \in 1..3, n \in 2..MaxIds : RC_Pre(j, n)
+           \/ \E k \in 1..3 : RC_Bad(k)
            \/ \E k \in 1..12 : RC_Fix(k) \/ RC_Release(k)
            \/ \E b \in BOOLEAN : RC_DimNames(b) \/ RC_ParNames(b)
 RC_Spec == RC_Init /\ [][RC_Next]_rcvars
